@@ -10,8 +10,8 @@ CHECKS = {
 def add(pid, technique, text, note, ref=None):
     CHECKS[pid] = (technique, text, note, ref or f"DESIGN.md section 5, {pid}")
 
-add("C01", "Hypothesis-generated games vs independent mpmath reference model (differential oracle with C17-derived intervals)",
-    "Exploration: thousands of generated (model, configuration, game, outcome encoding, per-call option) cases per run, a dense uniform sweep of the standardised two-team gap (incl. the neighbourhoods where erfc / exp / the epsilon guards change regime) and lobbies beyond 8 teams, each compared per player with a 50-digit evaluation of the published update; shrunk failures become replay files. Right level because the property quantifies over a continuous input space with an exact executable oracle.",
+add("C01", "Hypothesis-generated games and RuleBasedStateMachine league histories vs independent mpmath reference model (differential oracle with C17-derived intervals)",
+    "Exploration: thousands of generated (model, configuration, game, outcome encoding, per-call option) cases per run, a dense uniform sweep of the standardised two-team gap (incl. the neighbourhoods where erfc / exp / the epsilon guards change regime) and lobbies beyond 8 teams, each compared per player with a 50-digit evaluation of the published update; league histories (rating objects fed back through one model, the returned list rated again, predictions interleaved) compared with the reference after every game; shrunk failures become replay files. Right level because the property quantifies over a continuous input space with an exact executable oracle.",
     "Trusts vf/refmodel.py as a transcription of Weng & Lin (2011) and mpmath's ncdf/npdf; TM margins outside [1e-8,1e-2] excluded (counted); TM-part doubled c_iq is the open known finding tmp-ciq-doubled.")
 add("C03", "Hypothesis metamorphic test: several encodings of one weak order must give bit-identical results; symmetry anchor for mixed-type ties",
     "Exploration over generated games x weak orders x encodings (int/float/mixed/bool/huge/relatively-close floats/small ints/negative/scores/omitted) with an exact (bitwise) metamorphic oracle; history-dependent failures are saved with the cases that preceded them.",
@@ -26,22 +26,22 @@ add("C17", "Hypothesis-generated (x, t) sweep + exhaustive +-64-ulp walks at eve
     "Exploration: dense generated sweep of [-40,40] x [1e-8,1e-2] with exactly the statement's bounds as oracle; ulp-neighbourhoods of each threshold enumerated exhaustively inside a case.",
     "mpmath at 50 digits taken as exact; a sweep, not an interval proof.")
 
-add("C02", "Hypothesis-generated games with all-distinct named players; per-slot identity + mpmath posterior of that very player + pre-sorted differential",
-    "Exploration: each generated call is checked for shape, id/name per slot, duplicates, per-slot value against the independent reference, bit-identical agreement with the pre-sorted presentation and all-or-nothing mutation of the passed-in objects.",
+add("C02", "Hypothesis-generated games with all-distinct named players; per-slot identity + mpmath posterior of that very player + pre-sorted differential; RuleBasedStateMachine league histories with the same per-slot oracle after every game",
+    "Exploration: each generated call is checked for shape, id/name per slot, duplicates, per-slot value against the independent reference, bit-identical agreement with the pre-sorted presentation and all-or-nothing mutation of the passed-in objects; league histories (the same named objects through many games, returned or passed-in objects fed back, the returned list rated again) check the same after every game.",
     "Per-slot values of TM games with a pair beyond 5 sigma are left to C01 (excluded, counted).")
 add("C04", "Hypothesis metamorphic test with exhaustive n! team permutations (n<=5) and drawn player permutations, compared within a stated numerical budget",
     "Exploration over generated games; inside each case the permutation group is enumerated exhaustively for n<=5 (24 drawn permutations above); oracle = per-player agreement within the float budget of DESIGN.md 4.4.",
     "Budget constants calibrated on the repaired tree (observed maxima reported in evidence); TM branch-boundary cases excluded (counted); partial pairing restricted to tie-order-preserving permutations as the statement says.")
-add("C05", "Hypothesis metamorphic/sign-invariant tests over one game rated under several outcomes (win/draw/loss, place exchange, identical teams)",
+add("C05", "Hypothesis metamorphic/sign-invariant tests over one game rated under several outcomes (win/draw/loss, place exchange, identical teams); clause (a) also after every game of RuleBasedStateMachine league histories",
     "Exploration: four clauses (first/last place and proportionality; win/draw/loss ordering; exchange with a better-placed team; identical teams ordered by place) with only a rounding floor as tolerance; half of the cases are constructed 5-9 sigma mismatches.",
     "'Identical teams' reading as in DESIGN.md C05; strictness asserted only where the expected gap exceeds 1000x the rounding floor.")
 add("C06", "Hypothesis single-call invariants + RuleBasedStateMachine league histories (ratings fed back) + 2000-game long runs",
     "Exploration of inputs, configurations and histories: invariant sigma finite, >0, <= sqrt(prior^2+tau^2), <= prior under limit_sigma after every call and along every generated league history.",
     "Players leaving the valid input domain are retired from a history; history gammas bounded by 1.")
-add("C07", "Hypothesis invariant test: precision-weighted sum of mu changes vs a tolerance relative to the summands' magnitude",
+add("C07", "Hypothesis invariant test: precision-weighted sum of mu changes vs a tolerance relative to the summands' magnitude, on single calls and after every game of RuleBasedStateMachine league histories",
     "Exploration over generated games (3/8 dyadic so sums are exact): the balance identity is evaluated on every output with tolerance 1e-9 of the cancelling terms plus the stated TM draw-margin term.",
     "Tolerance relative to summand magnitude (the net change is mathematically zero).")
-add("C08", "Hypothesis corner-heavy generation over the widest stated domain (incl. a second call through the same model) + atheris coverage-guided fuzz target with the same oracle",
+add("C08", "Hypothesis corner-heavy generation over the widest stated domain (incl. a second call through the same model) + RuleBasedStateMachine league histories (ratings fed back, predictions interleaved) + atheris coverage-guided fuzz target with the same oracle",
     "Exploration: no exception and all numbers finite for rate and the three predicts on 2..8 teams x 1..16 players, sigma down to 0 (with tau), kappa down to 1e-12, scale 1e-3..1e3; libFuzzer campaign over the same structured domain.",
     "sigma=0 only with effective tau >= 1e-6 beta.")
 add("C09", "Hypothesis invariant + metamorphic tests (permutation, identical teams, single-member mu increment) on predict_win",
